@@ -50,6 +50,9 @@ VscIdsOf(e) == [ i \in DOMAIN e.res.recv |-> e.res.recv[i].id ]
 (* ----------------------------------------------------------------------- *)
 
 Get(f, k) == IF k \in DOMAIN f THEN f[k] ELSE 0
+\* times and durations beyond this many seconds are reported as this value ("forever"; TLC integers are 32-bit)
+TimeClamp == 2100000000
+ClampT(x) == IF x > TimeClamp THEN TimeClamp ELSE x
 \* C16: what the consumer's reward step has to do with the fees collected in this block
 ConsShare(st, d)  == (Get(st.bal.fee, d) * st.fracBp) \div 10000
 TransmitDue(st, h) == h - st.lastTx >= st.bpdt
@@ -769,7 +772,7 @@ C08_Params == [][
     LET c == Ev.args.c  pkt == Ev.res.recv[1]  tgt == Resolve(p, c, pkt.key) IN
     (tgt \in DOMAIN p.vals /\ p'.vals[tgt].jailed /\ ~p.vals[tgt].jailed) =>
       /\ p.cons[c].infr.present
-      /\ p'.vals[tgt].ju = p'.t + p.cons[c].infr.v.dt.jail
+      /\ p'.vals[tgt].ju = ClampT(p'.t + p.cons[c].infr.v.dt.jail)
       /\ (p.cons[c].infr.v.dt.frac = "0.000000000000000000") => p'.vals[tgt].tok = p.vals[tgt].tok
       /\ p'.vals[tgt].tok <= p.vals[tgt].tok
       /\ ~p'.vals[tgt].tomb
@@ -1147,7 +1150,7 @@ C07_OnlySigner == [][
     LET a == Ev.args  tgt == EvTarget(p, a)  ds == p.cons[a.c].infr.v.ds
         x == p.vals[tgt]  y == p'.vals[tgt]
         burned == (x.tok - y.tok) + (x.ubd - y.ubd) IN
-    /\ y.jailed /\ y.ju = (IF p'.t + ds.jail > 2000000000 THEN y.ju ELSE p'.t + ds.jail)
+    /\ y.jailed /\ y.ju = ClampT(p'.t + ds.jail)
     /\ y.tomb = (ds.tomb \/ x.tomb)
     \* slashed with the consumer's double-sign fraction, counting stake still unbonding or redelegating
     /\ burned >= 0
